@@ -23,10 +23,27 @@ Theorem C09_json_yaml_interchangeable : forall (text_json text_yaml : doc -> opt
   read_back text_json s = read_back text_yaml s.
 Proof. exact json_yaml_interchangeable. Qed.
 Print Assumptions C09_json_yaml_interchangeable.
-(* C09_roundtrip_partial: faithfulness of the text layer itself is not a theorem.  It is swept by the correspondence runs in
-   every kind of string position; the strings on which it fails are the known findings C09/json-c1-controls, C09/json-nel and
-   C09/yaml-leading-blank-multiline, whose classes are the decidable predicates of Judge09 (has_c1, has_nel,
-   leading_blank_multiline). *)
+(* Since repair D29 Spec.write keeps the YAML encoding of a Spec only if the parser of Spec files reads it back as the same
+   Spec, and writes the document in JSON syntax otherwise.  Hence for ANY behaviour of the YAML text layer — faithful, lossy or
+   failing — a .yaml file reads back as a Spec with the JSON image of the original as soon as the JSON text layer carries the
+   document; and where the YAML text layer is faithful the file is the YAML encoding, as before. *)
+From CDI Require Import YamlFallback.
+Theorem C09_yaml_file_reads_back : forall (text_yaml text_json : doc -> option doc) (same_image : spec -> spec -> bool),
+  (forall a b, same_image a b = true -> doc_of_spec a = doc_of_spec b) ->
+  forall s, spec_ranges s = true -> text_json (doc_of_spec s) = Some (doc_of_spec s) ->
+  exists s', read_yaml_file text_yaml text_json same_image s = Ok s' /\ doc_of_spec s' = doc_of_spec s.
+Proof. exact yaml_file_reads_back. Qed.
+Print Assumptions C09_yaml_file_reads_back.
+Theorem C09_yaml_file_unchanged_when_faithful : forall (text_yaml text_json : doc -> option doc) (same_image : spec -> spec -> bool),
+  (forall a, same_image a a = true) ->
+  forall s, spec_ranges s = true -> text_yaml (doc_of_spec s) = Some (doc_of_spec s) ->
+  yaml_file text_yaml text_json same_image s = text_yaml (doc_of_spec s) /\ read_yaml_file text_yaml text_json same_image s = Ok s.
+Proof. exact yaml_file_unchanged_when_faithful. Qed.
+Print Assumptions C09_yaml_file_unchanged_when_faithful.
+(* C09_roundtrip_partial: faithfulness of the JSON text layer on whole documents is proved for its strings (below) and swept by
+   the correspondence runs in every kind of string position; the token structure around the strings, and the YAML emitter where
+   it is kept, are exercised only.  No input class is set aside any more (former known findings C09/json-c1-controls,
+   C09/json-nel, C09/yaml-leading-blank-multiline: repaired, D20 and D29). *)
 
 Example C09_example :
   let s := mkSpec "0.7.0" "vendor.com/class" [("k", "v")]
